@@ -22,7 +22,11 @@ PROFILES = {
     "rx_odpub":       ("publisher",      False, 1, True,  True,  False),
     "rx_sod":         ("staticOnDemand", False, 0, False, True,  False),
     "redirect":       ("redirect",       False, 0, False, False, False),
+    # alwaysAvailable: the stream outlives the publishers, an offline sub-stream fills the gaps
+    "aa_override":    ("publisher",      True,  0, False, False, False, True),
+    "aa_nooverride":  ("publisher",      False, 1, False, False, False, True),
 }
+PROFILES = {k: (v + (False,) if len(v) == 6 else v) for k, v in PROFILES.items()}
 
 CFG = """SPECIFICATION %(spec)s
 CONSTANTS
@@ -35,6 +39,7 @@ CONSTANTS
   OnDemandPub = %(odp)s
   Regex = %(rx)s
   Fallback = %(fb)s
+  AlwaysAvail = %(aa)s
   MaxSteps = %(steps)d
   KeepHist = %(kh)s
   InitFailureTakesStreamDown = TRUE
@@ -48,10 +53,10 @@ def b(x):
 
 
 def write_cfg(ctx, name, prof, spec, steps, rest, descs='"d1"', kh=True):
-    sk, ov, mr, odp, rx, fb = PROFILES[prof]
+    sk, ov, mr, odp, rx, fb, aa = PROFILES[prof]
     p = os.path.join(ctx.specdir(), name)
     with open(p, "w") as fh:
-        fh.write(CFG % dict(spec=spec, descs=descs, sk=sk, ov=b(ov), mr=mr, odp=b(odp), rx=b(rx), fb=b(fb),
+        fh.write(CFG % dict(spec=spec, descs=descs, sk=sk, ov=b(ov), mr=mr, odp=b(odp), rx=b(rx), fb=b(fb), aa=b(aa),
                             steps=steps, rest=rest, kh=b(kh)))
     return name
 
@@ -104,7 +109,7 @@ def run(ctx, prefix, profiles, mc_inv, known_design=()):
     for prof, (ws, c, t) in gens:
         edges_cov += c
         edges_tot += t
-        sk, ov, mr, odp, rx, fb = PROFILES[prof]
+        sk, ov, mr, odp, rx, fb, aa = PROFILES[prof]
         for w in ws:
             inputs = []
             for lab, _ in w:
@@ -114,7 +119,7 @@ def run(ctx, prefix, profiles, mc_inv, known_design=()):
                 inputs.append({"a": name, "c": c_})
             runs.append({"run": len(runs), "src": "walk",
                          "profile": {"name": prof, "sourceKind": sk, "override": ov, "maxReaders": mr,
-                                     "onDemandPub": odp, "regex": rx, "fallback": fb},
+                                     "onDemandPub": odp, "regex": rx, "fallback": fb, "alwaysAvail": aa},
                          "inputs": inputs})
     ctx.set("edges_covered", edges_cov)
     ctx.set("edges_total", edges_tot)
@@ -160,7 +165,7 @@ def run(ctx, prefix, profiles, mc_inv, known_design=()):
                 continue  # decided by the sibling property's check
             o = part[bad["l"] - 1]
             ins = [s["in"]["a"] + ":" + s["in"]["c"] for s in o["steps"]]
-            sk, ov, mr, odp, rx, fb = PROFILES[prof]
+            sk, ov, mr, odp, rx, fb, aa = PROFILES[prof]
             rec = {"monitor": bad["monitor"], "profile": prof, "inputs": ins, "detail": bad.get("detail", {}),
                    "sourceKind": sk, "onDemandPub": odp}
             ctx.violation(rec, "monitor %s fails on the real path (profile %s) for inputs %s; observed steps: %s" % (
